@@ -886,14 +886,18 @@ func (k *Kernel) addFuturePrevote(
 ) AddVoteResult {
 	// NOTE: keep changes to this method synchronized with addFuturePrecommit.
 
-	// TODO: the mirror thought this was a future view,
+	// The mirror thought this was a future view,
 	// but it is possible that it changed from future to current
 	// before the kernel processed the request.
 	if _, _, vStatus := s.FindView(req.H, req.R, "(*Kernel).addFuturePrevote"); vStatus != ViewFuture {
-		panic(fmt.Errorf(
-			"TODO: handle addFuturePrevote when the view has changed from future to %s",
-			vStatus,
-		))
+		if vStatus == ViewFound {
+			// The round is held in memory now, so the store is no longer the place for these votes.
+			// The caller looks the view up again and takes the regular path.
+			return AddVoteConflict
+		}
+
+		// The round was passed over entirely.
+		return AddVoteOutOfDate
 	}
 
 	// It's still a future view.
@@ -994,14 +998,18 @@ func (k *Kernel) addFuturePrecommit(
 ) AddVoteResult {
 	// NOTE: keep changes to this method synchronized with addFuturePrevote.
 
-	// TODO: the mirror thought this was a future view,
+	// The mirror thought this was a future view,
 	// but it is possible that it changed from future to current
 	// before the kernel processed the request.
 	if _, _, vStatus := s.FindView(req.H, req.R, "(*Kernel).addFuturePrecommit"); vStatus != ViewFuture {
-		panic(fmt.Errorf(
-			"TODO: handle addFuturePrecommit when the view has changed from future to %s",
-			vStatus,
-		))
+		if vStatus == ViewFound {
+			// The round is held in memory now, so the store is no longer the place for these votes.
+			// The caller looks the view up again and takes the regular path.
+			return AddVoteConflict
+		}
+
+		// The round was passed over entirely.
+		return AddVoteOutOfDate
 	}
 
 	// It's still a future view.
